@@ -183,7 +183,7 @@ func judge(c Case, o observed) (v verdict) {
 			v.outcomes = append(v.outcomes, "fault:build-refused")
 			return v
 		}
-		return v.fail("build-error", "CreateHttpRequest failed for a well-formed %s payload under %q: %s", c.Payload, c.Media, o.buildErr)
+		return v.fail("build-error", "building the request failed for a well-formed %s payload under %q: %s", c.Payload, c.Media, o.buildErr)
 	}
 	if o.sendErr != "" && faulted {
 		v.outcomes = append(v.outcomes, "fault:send-failed")
